@@ -89,11 +89,15 @@ def run(ctx):
         ctx.sample({'query': c['q'], 'A': c['A'], 'B': c['B'], 'model': e, 'implementation': {k2: g_.get(k2) for k2 in ('events', 'pulls', 'error')} if isinstance(g_, dict) else g_})
     # rbql-js/rbql.js is an anchor of this property too: the JavaScript leg runs language-neutral queries of this shape through rbql-js
     importlib.import_module('props.c19').js_leg(ctx, THEOREM, 'join', 600 if ctx.tier == 'quick' else 60000)
+    # the pairing through the CSV front-end with a comment prefix (comment lines in the JOIN file are not records)
+    importlib.import_module('props.c04csv').run(ctx, THEOREM)
     # the two sides of an ON condition: resolve_join_variables of both ports against JoinVars.v (the swap theorem's model)
     importlib.import_module('props.joinvars').run(ctx, THEOREM + ' ; C08_join_sides_swap (JoinVars.v)')
 
 
 def replay(ctx, case):
+    if case.get('part') == 'c04csv':
+        return importlib.import_module('props.c04csv').replay(ctx, case, THEOREM)
     if case.get('part') == 'joinvars':
         return importlib.import_module('props.joinvars').replay(ctx, case, THEOREM)
     if case.get('impl') == 'js':
